@@ -6,6 +6,8 @@ import GormModel.Model.JoinScan
 import GormModel.Gen.PreloadFacts
 import GormModel.Gen.PreloadSessions
 import GormModel.Lemmas.Identity
+import GormModel.Model.PreloadBatch
+import GormModel.Lemmas.PreloadBatch
 namespace Gorm
 
 /-- `strings.Join(_, "_")` is injective on tuples of equal arity whose components contain no `_` -/
@@ -678,5 +680,120 @@ theorem C11_fault_reported_current_tree :
 /-- the fault class: the first query's error lands on a handle nobody looks at -/
 theorem C11_fault_swallowed_counterexample : loadOutcome [false, true] (some 0) = .silentlyIncomplete := by
   decide
+
+/-! ## Round 4: preload as a function of the parent-key LIST — batches of the IN list, and on which handle
+
+  (`Model/PreloadBatch.lean`; the shape of preload's `.Find(` calls is regenerated into `Gen/PreloadQuery.lean`) -/
+
+/-- MAIN: however the (distinct) key tuples are cut into batches, fetching batch by batch — each batch on a FRESH statement —
+    yields exactly the children of the single query over the whole list (as a multiset: none missing, none twice) -/
+theorem C11_batch_partition_independent (children : List KChild) (batches : List (List (List KeyVal)))
+    (hn : batches.flatten.Nodup) :
+    (batchedFetch true children ⟨[]⟩ batches).Perm (fetchIn children batches.flatten) :=
+  batched_cloning_perm children batches hn
+
+/-- … hence every parent is handed the same children, whatever the partition -/
+theorem C11_batch_attach_independent (m : IdMap) (children : List KChild) (batches : List (List (List KeyVal)))
+    (hn : batches.flatten.Nodup) (a : Nat) :
+    (attachedTo m (batchedFetch true children ⟨[]⟩ batches) a).Perm (attachedTo m (fetchIn children batches.flatten) a) := by
+  unfold attachedTo
+  exact ((batched_cloning_perm children batches hn).filter _).map _
+
+/-- the key list preload sends (`foreignValues` of `GetIdentityFieldValuesMap`) never holds a tuple twice as long as the key
+    string is injective on the parents' tuples (no listed F6 collision) -/
+theorem C11_identity_values_nodup (rows : List IdRow) : (identitySlice rows).values.Nodup := by
+  have hk := identity_keys_nodup rows
+  have ha := (C11_identity_values rows).1
+  unfold IdMap.KeysNodup at hk
+  rw [← ha] at hk
+  exact nodup_of_map _ _ hk
+
+/-- the attached children do not depend on how the key list is partitioned: any batching equals the one-query preload of
+    `C11_preload_none_missing` / `C11_preload_none_foreign`, for every parent list, child table and parent -/
+theorem C11_preload_batched_eq_direct (split : List (List KeyVal) → List (List (List KeyVal)))
+    (hsplit : ∀ l, (split l).flatten = l) (parents : List IdRow) (children : List KChild) (a : Nat) :
+    (preloadBatched split parents children a).Perm (preloadDirect parents children a) := by
+  unfold preloadBatched preloadDirect
+  have hn : (split (identitySlice parents).values).flatten.Nodup := by
+    rw [hsplit]; exact C11_identity_values_nodup parents
+  have h := C11_batch_attach_independent (identitySlice parents) children (split (identitySlice parents).values) hn a
+  rw [hsplit] at h
+  exact h
+
+/-- the PROVISO matters: on a handle that does not clone (the result of a chain call) the IN lists pile up in one
+    statement, and every batch after the first — disjoint from it, as batches of distinct keys are — fetches nothing:
+    what is loaded is the first batch only -/
+theorem C11_batch_shared_statement_loses (children : List KChild) (b1 : List (List KeyVal))
+    (rest : List (List (List KeyVal))) (hd : ∀ b ∈ rest, ∀ v ∈ b, v ∉ b1) :
+    batchedFetch false children ⟨[]⟩ (b1 :: rest) = fetchIn children b1 := by
+  simp only [batchedFetch, Bool.false_eq_true, if_false, List.nil_append]
+  rw [runStmt_single, batched_shared_nil children b1 rest hd ⟨[b1]⟩ (by simp), List.append_nil]
+
+/-- the fault class (kernel-checked witness): two parents, keys 1 and 2, one child each, batches [1] and [2]: on a cloning
+    handle both children arrive, on a shared statement (`fk IN (1) AND fk IN (2)`) the second parent's child is lost -/
+theorem C11_batch_shared_statement_counterexample :
+    let children : List KChild := [⟨10, [.uint 1]⟩, ⟨20, [.uint 2]⟩]
+    let parents : List IdRow := [⟨0, [⟨.uint 1, false⟩]⟩, ⟨1, [⟨.uint 2, false⟩]⟩]
+    let batches : List (List (List KeyVal)) := [[[.uint 1]], [[.uint 2]]]
+    attachedTo (identitySlice parents) (batchedFetch true children ⟨[]⟩ batches) 1 = [20] ∧
+    attachedTo (identitySlice parents) (batchedFetch false children ⟨[]⟩ batches) 1 = [] ∧
+    preloadDirect parents children 1 = [20] := by
+  decide
+
+/-- a query site of preload fetches exactly the one-query result provided it passes the whole key list and — when it sits
+    in a loop — makes its handle fresh per iteration; then it does not matter whether `tx` itself still clones
+    (`txClones = false`: nested path, function condition, polymorphic relation) nor how the list is split -/
+theorem C11_site_fetch_exact (s : FindSite) (hw : s.whole = true) (hl : s.inLoop = false ∨ s.fresh = true)
+    (txClones : Bool) (split : List (List KeyVal) → List (List (List KeyVal)))
+    (sub : List (List KeyVal) → List (List KeyVal)) (children : List KChild) (values : List (List KeyVal))
+    (hsplit : (split values).flatten = values) (hn : values.Nodup) :
+    (siteFetch s txClones split sub children values).Perm (fetchIn children values) := by
+  unfold siteFetch
+  simp only [hw, if_true]
+  cases hin : s.inLoop
+  · simp
+  · have hf : s.fresh = true := by
+      rcases hl with h | h
+      · rw [hin] at h; cases h
+      · exact h
+    simp only [hf, Bool.or_true, if_true]
+    have h := batched_cloning_perm children (split values) (by rw [hsplit]; exact hn)
+    rw [hsplit] at h
+    exact h
+
+/-- regenerated fact: preload of the current tree has its two `.Find(` calls (join-table query, related-table query), each
+    passes the whole key list and none sits in a loop on a handle that is not made fresh -/
+theorem C11_preload_query_current_tree :
+    currentFindSites.length = 2 ∧ ∀ s ∈ currentFindSites, s.whole = true ∧ (s.inLoop = false ∨ s.fresh = true) := by
+  decide
+
+/-- … so both child queries of the current tree's preload fetch exactly `fetchIn` of the whole key list, whether or not
+    `tx` was re-assigned from a chain call before (`Gen.preloadTxReassignments` such re-assignments exist) -/
+theorem C11_preload_query_exact_current_tree (s : FindSite) (hs : s ∈ currentFindSites) (txClones : Bool)
+    (split : List (List KeyVal) → List (List (List KeyVal))) (sub : List (List KeyVal) → List (List KeyVal))
+    (children : List KChild) (values : List (List KeyVal))
+    (hsplit : (split values).flatten = values) (hn : values.Nodup) :
+    (siteFetch s txClones split sub children values).Perm (fetchIn children values) :=
+  C11_site_fetch_exact s (C11_preload_query_current_tree.2 s hs).1 (C11_preload_query_current_tree.2 s hs).2
+    txClones split sub children values hsplit hn
+
+/-- the fault class at the level of the site shape: a looped, non-fresh site on a re-assigned `tx` loses the second batch;
+    a site that sends a slice of the key list loses the parents cut off -/
+theorem C11_site_fetch_counterexample :
+    let children : List KChild := [⟨10, [.uint 1]⟩, ⟨20, [.uint 2]⟩]
+    let values : List (List KeyVal) := [[.uint 1], [.uint 2]]
+    let split : List (List KeyVal) → List (List (List KeyVal)) := fun l => l.map (fun v => [v])
+    (siteFetch ⟨true, false, true⟩ false split id children values).map (·.id) = [10] ∧
+    (siteFetch ⟨true, false, true⟩ true split id children values).map (·.id) = [10, 20] ∧
+    (siteFetch ⟨true, true, true⟩ false split id children values).map (·.id) = [10, 20] ∧
+    (siteFetch ⟨false, false, false⟩ true split (fun l => l.take 1) children values).map (·.id) = [10] ∧
+    (fetchIn children values).map (·.id) = [10, 20] := by
+  decide
+
+/-- non-vacuity: a split that really cuts (singleton batches) satisfies the hypothesis of `C11_preload_batched_eq_direct` -/
+example : ∀ l : List (List KeyVal), (l.map (fun v => [v])).flatten = l := by
+  intro l; induction l with
+  | nil => rfl
+  | cons x t ih => simp [List.flatten_cons, ih]
 
 end Gorm
